@@ -376,7 +376,7 @@ def run_cell(h, cell, tier, seed, budget_s):
         first_log = [None]
 
         def on_path(ctx, rec):
-            if first_log[0] is None:
+            if first_log[0] is None and getattr(ctx, "n_prove", 0) > 0:
                 first_log[0] = list(ctx.log)
             # trace validation against the real stack
             want = tier == "thorough" or nval[0] < h.max_validate_quick or rng.random() < 0.02
